@@ -483,7 +483,11 @@ func (c *Collection) getDocument(id uint64) (*Document, error) {
 		return nil, err
 	}
 
-	metadata := span.DataStreams[0].Data
+	// Copy the metadata out of the file mapping: the caller keeps the document
+	// after the lock is released, while the mapped bytes change with later
+	// writes and are unmapped when the file grows or is closed.
+	metadata := make([]byte, len(span.DataStreams[0].Data))
+	copy(metadata, span.DataStreams[0].Data)
 	vector := decodeVector(span.DataStreams[1].Data, c.DimensionCount, c.Quantization)
 
 	return &Document{
@@ -661,9 +665,12 @@ func (c *Collection) Search(args SearchArgs) SearchResults {
 				return nil
 			}
 
+			// private copy (see getDocument)
+			metadataCopy := make([]byte, len(metadata))
+			copy(metadataCopy, metadata)
 			results = append(results, SearchResult{
 				ID:       id,
-				Metadata: metadata,
+				Metadata: metadataCopy,
 			})
 
 			if args.Limit > 0 && len(results) >= args.Limit {
